@@ -237,7 +237,7 @@ class Out:
             return
         except Exception as e:  # noqa: BLE001
             tb = traceback.format_exc().strip().splitlines()
-            self.obs.append((oid, core.FAILED, "symla", time.time() - t0, f"{type(e).__name__}: {e} [{tb[-3].strip() if len(tb) > 2 else ''}]", None, text))
+            self.obs.append((oid, core.UNKNOWN if symla.is_artefact(e) else core.FAILED, "symla", time.time() - t0, f"{type(e).__name__}: {e} [{tb[-3].strip() if len(tb) > 2 else ''}]", None, text))
             return
         if st == "equal":
             self.obs.append((oid, core.DISCHARGED, "symla:" + be, time.time() - t0, "", None, text))
